@@ -120,15 +120,28 @@ pub fn check(a: &Analysis, _aux: &mut Aux, t: &mut Tally) -> Vec<Violation> {
                         (Some(r), Some(rr)) => match &r.l4 {
                             L4::Icmp6(ri) => {
                                 let body = &rr[ri.rest_off..ri.rest_off + ri.rest_len];
+                                // Solicited and Override set, target echoed, and among the options a Target
+                                // Link-Layer Address (type 2, length 1) holding the configured MAC
+                                let mut tlla = false;
+                                let mut opts_ok = body.len() >= 20;
+                                let mut i = 20;
+                                while opts_ok && i < body.len() {
+                                    if i + 2 > body.len() || body[i + 1] == 0 || i + body[i + 1] as usize * 8 > body.len() {
+                                        opts_ok = false;
+                                        break;
+                                    }
+                                    let l = body[i + 1] as usize * 8;
+                                    if body[i] == 2 && l == 8 && body[i + 2..i + 8] == cfg.mac {
+                                        tlla = true;
+                                    }
+                                    i += l;
+                                }
                                 let ok = ri.ty == 136
                                     && ri.code == 0
-                                    && body.len() == 4 + 16 + 8
-                                    && body[0] == 0x60
-                                    && body[1..4] == [0, 0, 0]
+                                    && opts_ok
+                                    && body[0] & 0x60 == 0x60
                                     && body[4..20] == tg
-                                    && body[20] == 2
-                                    && body[21] == 1
-                                    && body[22..28] == cfg.mac;
+                                    && tlla;
                                 if !ok {
                                     bad("na-fields", "na-fields".into(), format!("neighbour advertisement type {} code {} body {} does not advertise {} at the configured MAC with S and O set", ri.ty, ri.code, hex(body), target));
                                 }
